@@ -1,6 +1,6 @@
 """What is claimed, per property. A property appears in CLAIMS only once its checker exists and
 passes on the unchanged tree."""
-FIX_COMMITS = ["4e9e139", "5ee6583", "744f482", "eb93a13", "ceb972a", "a924d81", "2127bcd", "d45c8ce", "840f793", "c6f0e0e", "026690a", "cee72dd", "d6006a0", "846c668", "74129bf", "7f18343"]
+FIX_COMMITS = ["4e9e139", "5ee6583", "744f482", "eb93a13", "ceb972a", "a924d81", "2127bcd", "d45c8ce", "840f793", "c6f0e0e", "026690a", "cee72dd", "d6006a0", "846c668", "74129bf", "7f18343", "8354688"]
 
 CLAIMS = {
     "C09": dict(
@@ -169,6 +169,16 @@ CLAIMS = {
         ref="DESIGN.md §3 C02",
         note="induction hypothesis: each child result is one solution of the child",
         technique="static analysis: guard/control-dependence and provenance facts from the evaluation-protocol abstract interpreter",
+    ),
+    "C03": dict(
+        text="Decides the absence of state carried on shared expression nodes from one evaluation into another, over the evaluation closure "
+             "of the call graph: every field evaluation accumulates into has a reset in that closure (CARRY-1), no stored one-shot iterator of "
+             "an object that outlives the evaluation is advanced by it (CARRY-2), and each _evaluate__ installs its per-evaluation parent "
+             "before evaluating children and hands itself down (EP-HANDSHAKE, CFG dominance). Equality of result sequences under arbitrary "
+             "interleavings is not decided.",
+        ref="DESIGN.md §3 C03",
+        note="scratch flags overwritten before each read are not carried state; one known finding (shared one-shot domain generator)",
+        technique="static analysis: effect analysis (accumulate/reset sites) over the call-graph evaluation closure + CFG dominance",
     ),
 }
 
